@@ -56,6 +56,8 @@ theorem dGet_decoded (d : DictL) (hn : (d.map (·.1)).Nodup) (op : Nat) :
 theorem toI16_wrap (x : Int) (h : -32768 ≤ x ∧ x ≤ 32767) : toI16 (x % 65536).toNat = x := by
   unfold toI16; split <;> omega
 
+/-- `getDeltaF16` (sums reduced modulo 2^16) on the deltas written by `setDeltaF16`: every int16 array
+comes back, whatever the gaps between neighbouring values -/
 theorem dDelta_go_deltas : ∀ (l : List Int) (prev : Int), (-32768 ≤ prev ∧ prev ≤ 32767) →
     (∀ x ∈ l, -32768 ≤ x ∧ x ≤ 32767) →
     dDelta.go ((deltas prev l).map decOperand) prev = some l := by
@@ -66,22 +68,42 @@ theorem dDelta_go_deltas : ∀ (l : List Int) (prev : Int), (-32768 ≤ prev ∧
     intro prev hp hl
     have hx := hl x (List.mem_cons_self ..)
     simp only [deltas, List.map_cons, decOperand, dDelta.go]
+    have hsum : toI16 ((x - prev + prev) % 65536).toNat = x := by
+      have : x - prev + prev = x := by omega
+      rw [this]; exact toI16_wrap x hx
+    rw [hsum, ih x hx (fun y hy => hl y (List.mem_cons_of_mem _ hy))]
+    rfl
+
+/-- the same reader on the deltas the unrepaired writer produced (wrapped into int16): the library
+read its own files back before the repair, too -/
+theorem dDelta_go_deltasOld : ∀ (l : List Int) (prev : Int), (-32768 ≤ prev ∧ prev ≤ 32767) →
+    (∀ x ∈ l, -32768 ≤ x ∧ x ≤ 32767) →
+    dDelta.go ((deltasOld prev l).map decOperand) prev = some l := by
+  intro l
+  induction l with
+  | nil => intro prev _ _; rfl
+  | cons x xs ih =>
+    intro prev hp hl
+    have hx := hl x (List.mem_cons_self ..)
+    simp only [deltasOld, List.map_cons, decOperand, dDelta.go]
     have hsum : toI16 ((toI16 ((x - prev) % 65536).toNat + prev) % 65536).toNat = x := by
       unfold toI16
       split <;> split <;> omega
     rw [hsum, ih x hx (fun y hy => hl y (List.mem_cons_of_mem _ hy))]
     rfl
 
-theorem deltas_valid : ∀ (l : List Int) (prev : Int), ∀ o ∈ deltas prev l, ValidOperand o := by
+theorem deltas_valid : ∀ (l : List Int) (prev : Int), (-32768 ≤ prev ∧ prev ≤ 32767) →
+    (∀ x ∈ l, -32768 ≤ x ∧ x ≤ 32767) → ∀ o ∈ deltas prev l, ValidOperand o := by
   intro l
   induction l with
-  | nil => intro prev o ho; simp [deltas] at ho
+  | nil => intro prev _ _ o ho; simp [deltas] at ho
   | cons x xs ih =>
-    intro prev o ho
+    intro prev hp hl o ho
+    have hx := hl x (List.mem_cons_self ..)
     simp only [deltas, List.mem_cons] at ho
     rcases ho with rfl | ho
-    · simp only [ValidOperand]; unfold toI16; split <;> omega
-    · exact ih x o ho
+    · simp only [ValidOperand]; omega
+    · exact ih x hx (fun y hy => hl y (List.mem_cons_of_mem _ hy)) o ho
 
 /-! ### real-valued entries -/
 
@@ -184,8 +206,8 @@ theorem privDict_valid (p : PrivIn) (dw nw sub : Int) (h : PrivDom p dw nw sub) 
   have one : ∀ (o : Operand), ValidOperand o → ∀ o' ∈ [o], ValidOperand o' := by
     intro o ho o' h'; simp at h'; subst h'; exact ho
   rcases he with ((((((((((he | he) | he) | he) | he) | he) | he) | he) | he) | he) | he)
-  · rw [mem_optEntry he]; exact ⟨vop 6 (by simp), deltas_valid _ _⟩
-  · rw [mem_optEntry he]; exact ⟨vop 7 (by simp), deltas_valid _ _⟩
+  · rw [mem_optEntry he]; exact ⟨vop 6 (by simp), deltas_valid _ _ (by omega) h.bv⟩
+  · rw [mem_optEntry he]; exact ⟨vop 7 (by simp), deltas_valid _ _ (by omega) h.ob⟩
   · rw [mem_optEntry he]; exact ⟨vop 3082 (by simp), one _ h.bs⟩
   · rw [mem_optEntry he]; exact ⟨vop 3083 (by simp), one _ h.bf⟩
   · rw [mem_optEntry he]; exact ⟨vop 3086 (by simp), one _ (by simp [ValidOperand])⟩
